@@ -984,4 +984,57 @@ theorem serve_forwarded (token : Str) (raw : List (Str × Str)) (auth : Option I
           · rw [← h.1, h.2]; simp
   · simp [hv] at h
 
+/-! ## small facts used by the property theorems -/
+
+theorem map_id_of_forall {α : Type} (l : List α) (f : α → α) (h : ∀ x ∈ l, f x = x) : l.map f = l := by
+  induction l with
+  | nil => rfl
+  | cons x l ih => simp [h x (by simp), ih (fun y hy => h y (by simp [hy]))]
+
+theorem carryIdentity_id (up : Bool) (id : Identity) (h : valuesCarried up id = true) : carryIdentity up id = id := by
+  simp only [valuesCarried, Bool.and_eq_true, beq_iff_eq, List.all_eq_true] at h
+  obtain ⟨⟨h1, h2⟩, h3⟩ := h
+  have hg : id.groups.map (carried up) = id.groups := map_id_of_forall _ _ h2
+  have he : id.extra.map (fun e => (e.1, e.2.map (carried up))) = id.extra := by
+    apply map_id_of_forall
+    intro e he
+    have := map_id_of_forall e.2 (carried up) (h3 e he)
+    rw [this]
+  cases id
+  simp_all [carryIdentity]
+
+theorem lowerKeys_id (id : Identity) (h : extraKeysLower id = true) : lowerKeys id = id := by
+  simp only [extraKeysLower, List.all_eq_true] at h
+  have he : id.extra.map (fun e => (toLower e.1, e.2)) = id.extra := by
+    apply map_id_of_forall
+    intro e he
+    rw [toLower_id_of_noUpper e.1 (by simpa using h e he)]
+  cases id
+  simp_all [lowerKeys]
+
+theorem multimapAgree_of_values (a b : Headers) (h : ∀ k, values a k = values b k) : multimapAgree a b = true := by
+  simp only [multimapAgree, List.all_eq_true, beq_iff_eq]
+  intro e _
+  rw [h]
+
+theorem imp_isIdentityName {n : Str} (h : hasPrefix n hImpPrefix = true) : isIdentityName n = true := by
+  simp [isIdentityName, h]
+
+theorem decodeExtras_identityPart (h : Headers) :
+    decodeExtras (h.filter (fun e => isIdentityName e.1)) = decodeExtras h := by
+  induction h with
+  | nil => rfl
+  | cons e h ih =>
+    obtain ⟨n, vs⟩ := e
+    by_cases hp : hasPrefix n hImpExtraPrefix = true
+    · have : isIdentityName n = true := imp_isIdentityName (hasPrefix_trans hp extraPrefix_imp)
+      simp [this, decodeExtras, hp, ih]
+    · by_cases hi : isIdentityName n = true
+      · simp [hi, decodeExtras, hp, ih]
+      · simp [hi, decodeExtras, hp, ih]
+
+theorem values_identityPart (h : Headers) (n : Str) (hn : isIdentityName n = true) :
+    values (h.filter (fun e => isIdentityName e.1)) n = values h n :=
+  values_filter_keep h _ n (fun e _ he => by simpa [he] using hn)
+
 end KG.Lemmas.Identity
